@@ -21,11 +21,10 @@ func regexpCalls(m dsl.Matcher) {
 }
 
 // Two patterns of one rule that match DIFFERENT nodes starting at the same position (the
-// call and its callee): the engine reports the same message at the same position twice, and
-// the same message again wherever the function is called once more. Whatever folds, sorts
-// or de-duplicates reports has exact duplicates and same-text neighbours to deal with.
-func calledTwiceOver(m dsl.Matcher) {
-	m.Match(`$f($*_)`, `$f`).
-		Where(m["f"].Node.Is(`Ident`) && m["f"].Object.IsGlobal() && !m["f"].Text.Matches(`^(len|cap|append|panic|make|new|print|println|string|int|byte|error|bool)$`)).
-		Report(`C: package-level $f in use`)
+// comparison and its left operand): the engine reports the same message at the same position
+// twice, and the same message again wherever the same length is tested once more. Whatever
+// folds, sorts or de-duplicates reports has exact duplicates and same-text neighbours to
+// deal with.
+func lengthLookedAt(m dsl.Matcher) {
+	m.Match(`len($s) == 0`, `len($s)`).Report(`C: length of $s looked at`)
 }
